@@ -53,6 +53,15 @@ func e6Sources(c *Ctx, nfiles int) []srcFile {
 			progs = append(progs, p)
 		}
 	}
+	// every third program in another generator form (function literals get source comments outside go test)
+	for i, p := range progs {
+		if i%3 == 0 {
+			if w := genr.WithForm(p, 1+(i/3)%(genr.NForms-1)); w != nil {
+				progs[i] = w
+			}
+		}
+	}
+	progs = append(progs, cases.Nest()...)
 	per := (len(progs) + nfiles - 1) / nfiles
 	for i := 0; i < nfiles; i++ {
 		st := render.Style(i % int(render.NStyles))
@@ -87,7 +96,8 @@ func e6Sources(c *Ctx, nfiles int) []srcFile {
 		b.WriteString(body.String())
 		files = append(files, srcFile{pkg: "p", name: fmt.Sprintf("f%02d.go", i), text: b.String()})
 	}
-	files = append(files, srcFile{pkg: "p", name: "shared.go", text: "package p\n\n// package-level state declared in a file the compiler does not process\nvar SharedG int\n"})
+	files = append(files, srcFile{pkg: "p", name: "shared.go", text: e6SharedPlain})
+	files = append(files, srcFile{pkg: "p", name: "uses_shared.go", text: e6UsesShared})
 	// the repository's own corpus (realistic sources)
 	gold := filepath.Join(work.Repo(), "rewriter", "test", "src")
 	ents, _ := os.ReadDir(gold)
@@ -101,6 +111,50 @@ func e6Sources(c *Ctx, nfiles int) []srcFile {
 	}
 	return files
 }
+
+// declarations in a file the compiler does not process (it does not use the API) ...
+const e6SharedPlain = "package p\n\n// package-level state declared in a file the compiler does not process\nvar SharedG int\n\nconst SharedC = 7\n\nconst SharedS = \"s\"\n\ntype SharedKind int\n\nconst SharedK SharedKind = 3\n"
+
+// ... and the same declarations in a file that uses the API itself (so it IS processed in the same invocation)
+const e6SharedWithGenerator = "package p\n\nimport . \"github.com/goghcrow/go-co\"\n\nvar SharedG int\n\nconst SharedC = 7\n\nconst SharedS = \"s\"\n\ntype SharedKind int\n\nconst SharedK SharedKind = 3\n\nfunc SharedGen() Iter[int] {\n\tYield(SharedC)\n\treturn nil\n}\n"
+
+// generators whose yields are bare identifiers declared in shared.go, each the only statement of its thunk
+const e6UsesShared = `package p
+
+import . "github.com/goghcrow/go-co"
+
+func UsesSharedConst(n int) Iter[int] {
+	for i := 0; i < n; i++ {
+		Yield(SharedC)
+	}
+	for range n {
+		Yield(SharedG)
+	}
+	for i := 0; i < n; i++ {
+		Yield(-SharedC)
+	}
+	if n > 3 {
+		Yield(SharedC)
+	} else {
+		Yield(SharedG)
+	}
+	return nil
+}
+
+func UsesSharedKind(n int) Iter[SharedKind] {
+	for i := 0; i < n; i++ {
+		Yield(SharedK)
+	}
+	return nil
+}
+
+var usesSharedLit = func() Iter[string] {
+	for range 2 {
+		Yield(SharedS)
+	}
+	return nil
+}
+`
 
 type e6Config struct {
 	// failFirst: a FIRST compile into the same dst of the same tree plus a file the compiler rejects
@@ -196,6 +250,12 @@ func C15(c *Ctx) {
 		e6Config{name: "second-compile-in-same-process", files: files, first: append([]srcFile{{pkg: "w", name: "w.go", text: strings.Replace(extraBefore, "package p", "package w", 1)}}, other...)},
 		e6Config{name: "dst-and-dst_tmp-prepopulated", files: files, prefill: map[string]string{}},
 		e6Config{name: "different-absolute-root", files: files, root: deep},
+		// an unrelated in-package test file and an external test package: the package is loaded a second time as its test variant
+		e6Config{name: "with-unrelated-test-files-in-the-package", files: files, extra: map[string]string{
+			"p/unrelated_test.go": "package p\n\nimport \"testing\"\n\nfunc TestUnrelated(t *testing.T) { _ = SharedG }\n",
+			"p/external_test.go":  "package p_test\n\nimport \"testing\"\n\nfunc TestExternal(t *testing.T) {}\n"}},
+		// the file that declares the shared constants / variables is processed in the same invocation (it uses the API itself)
+		e6Config{name: "declaring-file-is-processed-too", files: files, extra: map[string]string{"p/shared.go": e6SharedWithGenerator}},
 		e6Config{name: "after-a-rejected-run-into-the-same-dst", files: files, dropFile: "p/f00.go",
 			failFirst: "package p\n\nimport . \"github.com/goghcrow/go-co\"\n\nfunc ZZRejected() Iter[int] {\n\tn := 0\nagain:\n\tn++\n\tYield(n)\n\tif n < 2 {\n\t\tgoto again\n\t}\n\treturn nil\n}\n"},
 	)
@@ -342,7 +402,7 @@ func C15(c *Ctx) {
 		}
 	}
 	// the generated packages of the baseline configuration build (helper identifiers do not clash)
-	os.WriteFile(filepath.Join(sc.Dir, "cfg00", "out", "p", "shared.go"), []byte("package p\n\nvar SharedG int\n"), 0o644) // the plain file the compiler does not emit
+	os.WriteFile(filepath.Join(sc.Dir, "cfg00", "out", "p", "shared.go"), []byte(e6SharedPlain), 0o644) // the plain file the compiler does not emit
 	if br := sc.Go(20*time.Minute, nil, "build", "./cfg00/out/p"); br.Code != 0 {
 		c.Rep.Violate(verdict.Violation{Case: "build:cfg00/out/p", Sig: "generated-package-does-not-build:" + buildSig(string(br.Out)), What: "the generated package of the baseline configuration does not build:\n" + trimTo(string(br.Out), 2000)})
 	}
